@@ -86,4 +86,53 @@ def httpOneway (status : Nat) (body : B64) : Res (Option Err) :=
   | .nilTransport => .ok none
   | .transport _ => .ok none
 
+/-! ### The HTTP envelope: size fields of the HTTP layer chosen by the peer
+
+The peer announces a body length (`Content-Length: a`, or chunk-size lines) and sends what it likes. What
+`net/http` hands to `makeRequest` before the body ends is `delivered` (RFC 7230 framing as Go's client applies
+it; environment, observed by the harness): with a Content-Length the first `a` bytes when at least that many
+arrive, otherwise a read error (the connection is closed, or the caller's timeout expires); with chunked
+coding the whole body when every chunk-size line is truthful and the 0-chunk arrives, otherwise a read error;
+nothing for 204/304. `makeRequest` reads with `buf.ReadFrom(response.Body)`: the buffer grows with what
+arrives, no allocation is sized by an announced length. -/
+
+inductive Framing where
+  | length (announced : Nat)
+  | chunked (chunks : List (Nat × Nat)) (terminated : Bool)   -- (announced size, bytes carried)
+  deriving Repr, DecidableEq
+
+def delivered (status : Nat) (fr : Framing) (sent : Bytes) : Option Bytes :=
+  if status = 204 ∨ status = 304 then some [] else
+  match fr with
+  | .length a => if a ≤ sent.length then some (sent.take a) else none
+  | .chunked cs t =>
+    if t ∧ cs.all (fun c => decide (c.1 = c.2 ∧ 0 < c.1)) ∧ (cs.map (·.2)).sum = sent.length then some sent else none
+
+/-- What `Call` makes of status and delivered bytes (`dec` = base64.StdEncoding.DecodeString): 413 is answered
+before the body is read; a body read error is the transport's error. -/
+def httpReceived (dec : Bytes → B64) (guarded : Bool) (method : Bytes) (status : Nat) (got : Option Bytes) : CallOut :=
+  if status = 413 then .req .tooLarge else
+  match got with
+  | none => .req .transport
+  | some b => httpCall guarded method status (dec b)
+
+def httpCallEnvelope (dec : Bytes → B64) (guarded : Bool) (method : Bytes) (status : Nat) (fr : Framing) (sent : Bytes) : CallOut :=
+  httpReceived dec guarded method status (delivered status fr sent)
+
+def httpOnewayEnvelope (dec : Bytes → B64) (status : Nat) (fr : Framing) (sent : Bytes) : Res (Option Err) :=
+  if status = 413 then .ok (some .tooLarge) else
+  match delivered status fr sent with
+  | none => .ok (some .transport)
+  | some b => httpOneway status (dec b)
+
+/-- `maxAlloc` on linux/amd64: `make([]byte, n)` beyond it panics (bytes.Buffer turns that into ErrTooLarge). -/
+def maxAlloc : Nat := 281474976710656
+
+/-- NOT the code: a `makeRequest` that sizes its buffer by the announced Content-Length before reading
+(`buf.Grow(int(response.ContentLength))`). -/
+def httpCallPresized (dec : Bytes → B64) (guarded : Bool) (method : Bytes) (status : Nat) (fr : Framing) (sent : Bytes) : CallOut :=
+  match fr with
+  | .length a => if status ≠ 413 ∧ a > maxAlloc then .panic .overflow else httpCallEnvelope dec guarded method status fr sent
+  | _ => httpCallEnvelope dec guarded method status fr sent
+
 end FV.Recv4
